@@ -19,7 +19,7 @@ const TARGET: &str = "/verif/.target-bin";
 
 pub fn run(tier: &str) -> Part {
     let mut part = Part { engine: "binconf".into(), exhaustive: true, ..Default::default() };
-    part.rule = "every C17 scenario whose default-schedule outcome does not hinge on the order of two events in one instant (all client programs x signal patterns with an admin client; thorough: every pair under SIGINT / SHUTDOWN) is first run in the sim, then replayed on the real binary (hooks off, loopback TCP, python PostgreSQL stand-in, real kill(2) / admin SHUTDOWN, times scaled x2); compared: per client admitted?, administrator-command error?, number of answered requests; exit happened?, exit status 0, exit instant relative to the first SIGINT/SIGTERM (+-350 ms)".into();
+    part.rule = "every C17 scenario whose default-schedule outcome does not hinge on the order of two events in one instant (all client programs x signal patterns with an admin client; thorough: every pair under SIGINT / SHUTDOWN) is first run in the sim, then replayed on the real binary (hooks off, loopback TCP, python PostgreSQL stand-in, real kill(2) / admin SHUTDOWN, times scaled x2); compared: per client admitted?, administrator-command error?, number of answered requests; exit happened?, exit status 0, exit instant relative to the first SIGINT/SIGTERM (+-350 ms); scenarios are replayed in parallel and real time is not owned by the replayer, so a difference counts only if it reproduces with the scenario run alone (two more attempts; the number of such re-runs is in the evidence)".into();
     part.assumptions = vec!["free-running timing inside a step; events are >= 120 ms of real time apart".into()];
     // 1. the binary, from /repo's working tree, hooks off
     let build = Command::new("cargo")
@@ -81,7 +81,11 @@ pub fn run(tier: &str) -> Part {
         }
     };
     let mut ok = 0u64;
+    let mut rerun = 0u64;
     for (i, r) in results.iter().enumerate() {
+        if r.get("conformed_on_isolated_rerun").is_some() {
+            rerun += 1;
+        }
         if let Some(e) = r.get("error").and_then(|e| e.as_str()) {
             part.machinery_errors.push(format!("binconf: {}: {}", r["name"].as_str().unwrap_or(""), e));
             continue;
@@ -127,5 +131,6 @@ pub fn run(tier: &str) -> Part {
     part.distinct = ok;
     part.extra.insert("traces_replayed_on_binary".into(), json!(results.len()));
     part.extra.insert("traces_conforming".into(), json!(ok));
+    part.extra.insert("traces_conforming_only_when_rerun_alone".into(), json!(rerun));
     part
 }
